@@ -1,44 +1,14 @@
 (* Facts about the REGENERATED prox-Newton kernels (Gen/KernPN.v, translated from skglm/solvers/prox_newton.py on every run):
-   - C10: the working-set gradient of the sparse kernel equals the dense one;
    - C05: the backtracking line search (no intercept) keeps the model fit consistent, Xw = X w + c, whatever the penalty,
      the datafit and the step it ends on, provided the direction pair is consistent (X_delta_w = X_ws delta_w);
    - C17 / C01: the gradient it returns is the working-set gradient AT the point it returns (so the inner stopping
      score of ProxNewton is computed at the current iterate). *)
 From Coq Require Import Reals Lra Lia ZArith List Bool.
 Require Import SK.Base.Res SK.Base.Num SK.Base.RInst SK.Lemmas.VecFacts SK.Lemmas.Loops SK.Lemmas.Csc SK.Lemmas.Consistency
-               SK.Lemmas.DfQuadraticSparse SK.Lemmas.BcdEpoch SK.Lemmas.BcdCons.
+               SK.Lemmas.BcdBase SK.Lemmas.BcdCons.
 Require Import SK.Gen.SparseOps SK.Gen.KernPN.
 Import ListNotations.
 Local Open Scope R_scope.
-
-Lemma sparse_xj_dot_eq_dense n M (X : list (list R)) j lo hi (u : list R) :
-  col_bounds M j lo hi -> wf_col n M lo hi -> length u = n -> mcol X j = Ok (dense_col n M lo hi) ->
-  @_sparse_xj_dot R _ (cdata M) (cindptr M) (cindices M) j u = bind (mcol X j) (fun c => Ok (vdot c u)).
-Proof.
-  intros [Hlo Hhi] Hwf Hn Hc. unfold _sparse_xj_dot. rewrite Hlo, Hhi, Hc. cbn [bind].
-  rewrite (sparse_dot_loop n M lo hi u _ Hwf Hn). cbn [bind]. unfold ret. rewrite vdot_rsum. cbn [fofZ RNum]. f_equal. lra.
-Qed.
-
-Section Grad.
-Variable raw_grad : list R -> list R -> res (list R).
-Variables (n : nat) (M : csc) (X : list (list R)) (y : list R).
-Hypothesis Hcols : forall j, (0 <= j < Z.of_nat (length X))%Z ->
-  exists lo hi, col_bounds M j lo hi /\ wf_col n M lo hi /\ mcol X j = Ok (dense_col n M lo hi).
-Hypothesis Hraw : forall Xw g, length Xw = n -> raw_grad y Xw = Ok g -> length g = n.
-
-Theorem pn_construct_grad_sparse_eq_dense ws w Xw :
-  Forall (fun j => (0 <= j < Z.of_nat (length X))%Z) ws -> length Xw = n ->
-  @pn_construct_grad_sparse R _ raw_grad (cdata M) (cindptr M) (cindices M) y w Xw ws
-  = @pn_construct_grad R _ raw_grad X y w Xw ws.
-Proof.
-  intros Hws HXw. unfold pn_construct_grad_sparse, pn_construct_grad.
-  destruct (raw_grad y Xw) as [g|] eqn:Hg; cbn [bind]; [|reflexivity].
-  pose proof (Hraw Xw g HXw Hg) as Hlg. f_equal. unfold for_enum.
-  apply (for_enum_from_ext_inv (fun _ => True)); [exact I| |trivial].
-  intros idx j s Hin _. rewrite Forall_forall in Hws. destruct (Hcols j (Hws j Hin)) as (lo & hi & Hb & Hwf & Hc).
-  rewrite (sparse_xj_dot_eq_dense n M X j lo hi g Hb Hwf Hlg Hc). rewrite Hc. cbn [bind]. reflexivity.
-Qed.
-End Grad.
 
 (* ---------------- line search, fit_intercept = False ---------------- *)
 (* the part of X w explained by a direction supported on ws *)
